@@ -71,6 +71,11 @@ CLAIMS["C19"] = dict(
     note="Two known findings of the bounded part (']' inside a sort string; the text \"sort\" recurring after the last hit's sort key) are recorded in known_findings.txt by input class; any other failing response is reported. json.loads / next(iter(..)) are uninterpreted; detailed_stats and Query page accounting are not yet under contract.",
     design="§4 C19",
 )
+CLAIMS["C12"] = dict(
+    text="Proofs of the handler-local guarantees the all-or-nothing argument rests on, over ghost traces of send/createActor/launcher/cleanup events: acknowledgement counting (transition exactly when the last child answers), MechanicActor start (one ack slot per target ip:port, one Dispatcher, nothing reported yet; external cluster: no Dispatcher, EngineStarted at once), stop (one StopNodes per known child in order, no early acknowledgement; external: EngineStopped without StopNodes), failure forwarding, Dispatcher (every pending start message sent exactly once; a departing remote daemon yields one BenchmarkFailure), NodeMechanicActor.StartNodes (exactly one reply: NodesStarted after start_engine, or BenchmarkFailure on ANY exception), Mechanic.stop_engine (stop, flush with refresh, results, close, one cleanup per node configuration even if the race record is missing).",
+    note="NOT decided (outside this family): the quantifier over orders and delays of acknowledgements and hang freedom; assumed: thespian delivers each message once, FIFO per pair, handlers run atomically. One genuine defect (daemon departure raised TypeError instead of reporting) was found by this check and repaired by a fix: commit.",
+    design="§4 C12",
+)
 NA_DEFAULT = "check not built yet in this revision (the framework is under construction; see DESIGN.md §6b build order)"
 checks = []
 for p in props:
